@@ -683,6 +683,7 @@ class OutputSchemaBuilder(
                         default = serialize(
                             param_type,
                             param.default,
+                            aliaser=self.aliaser,
                             fall_back_on_any=False,
                             check_type=True,
                             # GraphQL internal value of an enum is the member
